@@ -1,4 +1,6 @@
 
+val negb : bool -> bool
+
 type nat =
 | O
 | S of nat
@@ -107,6 +109,8 @@ module Coq_Pos :
 
   val shiftl : positive -> n -> positive
 
+  val testbit : positive -> n -> bool
+
   val iter_op : ('a1 -> 'a1 -> 'a1) -> positive -> 'a1 -> 'a1
 
   val to_nat : positive -> nat
@@ -164,9 +168,13 @@ module N :
 
   val shiftr : n -> n -> n
 
+  val testbit : n -> n -> bool
+
   val to_nat : n -> nat
 
   val of_nat : nat -> n
+
+  val b2n : bool -> n
  end
 
 module Z :
@@ -204,7 +212,11 @@ module Z :
   val modulo : z -> z -> z
  end
 
+val last : 'a1 list -> 'a1 -> 'a1
+
 val rev : 'a1 list -> 'a1 list
+
+val concat : 'a1 list list -> 'a1 list
 
 val map : ('a1 -> 'a2) -> 'a1 list -> 'a2 list
 
@@ -255,6 +267,8 @@ val nthN : 'a1 list -> n -> 'a1 option
 
 val firstnN : n -> 'a1 list -> 'a1 list
 
+val skipnN : n -> 'a1 list -> 'a1 list
+
 val setN : 'a1 list -> n -> 'a1 -> 'a1 list
 
 val idx : 'a1 list -> n -> 'a1 outcome
@@ -270,6 +284,8 @@ val set_last : 'a1 list -> 'a1 -> 'a1 list
 val maxN : n list -> n
 
 val sumN : n list -> n
+
+val seqN : n -> nat -> n list
 
 val rank_spec : n list -> n -> n -> n
 
@@ -354,6 +370,62 @@ val sIW_PLACE_MUL : n
 val sIW_NOTFOUND : n
 
 val sIW_BYTE_MASK : n
+
+val bV_LINE_BITS : n
+
+val bV_PUSH_MOD : n
+
+val bV_EXT_ROUND : n
+
+val bV_EXT_DIV : n
+
+val bV_SET_SHIFT : n
+
+val bV_SET_MASK : n
+
+val bV_SETBITS_SHIFT : n
+
+val bV_SETBITS_MOD : n
+
+val rSN_BLOCK_SIZE : n
+
+val rSN_ONES_PER_HINT : n
+
+val rSN_ZEROS_PER_HINT : n
+
+val rSN_SUB_BITS : n
+
+val rSN_SUB_BITS_TAIL : n
+
+val rSN_SBR_BITS : n
+
+val rSN_SBR_MASK : n
+
+val rSW_BLOCK_WORDS : n
+
+val rSW_SUPERBLOCK_WORDS : n
+
+val rSW_ONES_PER_HINT : n
+
+val rSW_ZEROS_PER_HINT : n
+
+val rSW_BLK_BITS : n
+
+val rSW_BLK_BITS_TAIL : n
+
+val rSW_SB_SHIFT : n
+
+val rSW_SB_SHIFT_RD : n
+
+val rSW_BLK_BITS_RD : n
+
+val rSW_BLK_MASK : n
+
+val dA_BLOCK : n
+
+val dA_SUBBLOCK : n
+
+val dA_MAX_DIST : n
 
 val lINE_SYMS : n
 
@@ -536,6 +608,8 @@ val popcount_pos : positive -> n
 
 val popcount : n -> n
 
+val bits_of : nat -> n -> n list
+
 val m64 : n
 
 val select_in_word : n -> n -> n outcome
@@ -559,3 +633,223 @@ val qline_rank_unchecked : n list -> n -> n -> n outcome
 val plane_bits : (n -> n) -> n list -> n
 
 val pack_qline : n list -> n list
+
+type bitvec = { bv_words : n list; bv_nbits : n; bv_nones : n }
+
+val bv_empty : bitvec
+
+val bvl_set_symbol : n list -> n -> n -> n -> n list outcome
+
+val bv_get_bit_slice : n list -> n -> bool outcome
+
+val bv_get_bits_slice : n list -> n -> n -> n outcome
+
+val bv_len : bitvec -> n
+
+val bv_is_empty : bitvec -> bool
+
+val bv_count_ones : bitvec -> n
+
+val bv_count_zeros : bitvec -> n outcome
+
+val bv_get_unchecked : bitvec -> n -> bool outcome
+
+val bv_get : bitvec -> n -> bool option outcome
+
+val bv_get_bits : bool -> bitvec -> n -> n -> n option outcome
+
+val bv_get_bits_unchecked : bitvec -> n -> n -> n outcome
+
+val bv_get_word : bitvec -> n -> n outcome
+
+val bvm_push : bitvec -> bool -> bitvec outcome
+
+val bvm_append_loop : bitvec -> n -> n -> nat -> bitvec outcome
+
+val bvm_append_bits : bitvec -> n -> n -> bitvec outcome
+
+val resize_words : n list -> n -> n list
+
+val bvm_extend_with_zeros : bitvec -> n -> bitvec outcome
+
+val bvm_set : bitvec -> n -> bool -> bitvec outcome
+
+val bvm_set_bits_loop : n list -> n -> n -> n -> nat -> n list outcome
+
+val bvm_set_bits : bitvec -> n -> n -> n -> bitvec outcome
+
+val bvm_extend_bools : bitvec -> bool list -> bitvec outcome
+
+val bvm_extend_positions : bitvec -> n list -> bitvec outcome
+
+val bv_from_bools : bool list -> bitvec outcome
+
+val bv_from_positions : n list -> bitvec outcome
+
+val bvm_with_zeros : n -> bitvec outcome
+
+val bvit_next : bitvec -> n -> (bool option * n) outcome
+
+val bvit_len : bitvec -> n -> n outcome
+
+val bvinto_next : bitvec -> n -> (bool option * n) outcome
+
+type positer = { pi_cur_position : n; pi_cur_word_pos : n; pi_cur_word : n }
+
+val pi_new : positer
+
+val word_for : bool -> n -> n
+
+val pi_with_pos : bool -> bitvec -> n -> positer
+
+val ctz_pos : positive -> n
+
+val ctz : n -> n
+
+val pi_refill : bool -> n list -> positer -> nat -> positer option
+
+val pi_next : bool -> bitvec -> positer -> n option * positer
+
+val pi_collect : bool -> bitvec -> positer -> nat -> n list
+
+val bv_abs : bitvec -> bool list
+
+val notw : n -> n
+
+val line_of : n list -> n -> n list
+
+val line_n_ones : n list -> n
+
+val bline_rank1_loop : n list -> n -> bool -> n
+
+val bline_rank1 : n list -> n -> n option
+
+val bline_select_loop : bool -> n list -> n -> n -> n -> n outcome
+
+type rsnarrow = { rsn_bv : bitvec; rsn_pairs : n list; rsn_samples0 : 
+                  n list; rsn_samples1 : n list }
+
+type rsn_state = { ns_pairs : n list; ns_next_rank : n; ns_cur_subrank : 
+                   n; ns_subranks : n; ns_s0 : n list; ns_s1 : n list;
+                   ns_hint0 : n; ns_hint1 : n; ns_zeros : n }
+
+val rsn_word : rsn_state -> n -> n -> rsn_state
+
+val rsn_loop : rsn_state -> n -> n list -> rsn_state
+
+val iterN : ('a1 -> 'a1) -> nat -> 'a1 -> 'a1
+
+val rsn_new : bitvec -> rsnarrow outcome
+
+val rsn_block_rank : rsnarrow -> n -> n outcome
+
+val rsn_sub_block_ranks : rsnarrow -> n -> n outcome
+
+val rsn_sub_block_rank : rsnarrow -> n -> n outcome
+
+val rsn_rank1_unchecked : rsnarrow -> n -> n outcome
+
+val rsn_rank1 : rsnarrow -> n -> n option outcome
+
+val rsn_rank0 : rsnarrow -> n -> n option outcome
+
+val rsn_n_ones : rsnarrow -> n outcome
+
+val rsn_n_zeros : rsnarrow -> n outcome
+
+val scan_while : (n -> n outcome) -> n -> n -> n -> nat -> n outcome
+
+val scan_for : (n -> n outcome) -> n -> n -> n -> nat -> n outcome
+
+val rsn_select_subblock : bool -> rsnarrow -> n -> (n * n) outcome
+
+val rsn_select_unchecked : bool -> rsnarrow -> n -> n outcome
+
+val rsn_select1 : rsnarrow -> n -> n option outcome
+
+val rsn_select0 : rsnarrow -> n -> n option outcome
+
+val rsn_get : rsnarrow -> n -> bool option outcome
+
+type rswide = { rsw_bv : bitvec; rsw_meta : n list; rsw_samples0 : n list;
+                rsw_samples1 : n list; rsw_n_zeros : n }
+
+type rsw_state = { ws_meta : n list; ws_total : n; ws_cur : n; ws_pop : 
+                   n; ws_zeros : n; ws_s0 : n list; ws_s1 : n list;
+                   ws_hint0 : n; ws_hint1 : n }
+
+val rsw_line : rsw_state -> n -> n list -> rsw_state
+
+val rsw_loop : rsw_state -> n -> n list -> nat -> rsw_state
+
+val rsw_new : bitvec -> rswide outcome
+
+val rsw_n_zeros_q : rswide -> n
+
+val rsw_n_ones : rswide -> n outcome
+
+val rsw_superblock_rank : rswide -> n -> n outcome
+
+val rsw_sub_block_rank : rswide -> n -> n outcome
+
+val rsw_rank1_unchecked : rswide -> n -> n outcome
+
+val rsw_rank1 : rswide -> n -> n option outcome
+
+val rsw_rank0 : rswide -> n -> n option outcome
+
+val rsw_rank0_unchecked : rswide -> n -> n outcome
+
+val rsw_select_subblock : bool -> rswide -> n -> (n * n) outcome
+
+val rsw_select_unchecked : bool -> rswide -> n -> n outcome
+
+val rsw_select1 : rswide -> n -> n option outcome
+
+val rsw_select0 : rswide -> n -> n option outcome
+
+val rsw_get : rswide -> n -> bool option outcome
+
+type inventories = { inv_n_sets : n; inv_block : z list; inv_sub : n list;
+                     inv_overflow : n list }
+
+val step_by : nat -> n list -> nat -> n list
+
+val flush_block :
+  n list -> ((z list * n list) * n list) -> ((z list * n list) * n list)
+  outcome
+
+val inv_loop :
+  n list -> n list -> n -> ((z list * n list) * n list) -> n -> ((n
+  list * ((z list * n list) * n list)) * n) outcome
+
+val inv_new : bool -> bitvec -> inventories outcome
+
+val nthZ : z list -> n -> z option
+
+val da_scan : bool -> bitvec -> n -> n -> n -> nat -> ((n * n) * n) outcome
+
+val da_select : bool -> bitvec -> inventories -> n -> n option outcome
+
+type darray = { da_bv : bitvec; da_ones : inventories;
+                da_zeros : inventories option }
+
+val da_new : bool -> bitvec -> darray outcome
+
+val da_select1 : darray -> n -> n option outcome
+
+val da_select0 : bool -> darray -> n -> n option outcome
+
+val da_len : darray -> n
+
+val da_count_ones : darray -> n
+
+val da_count_zeros : darray -> n outcome
+
+val da_get : darray -> n -> bool option outcome
+
+val strictly_increasing : n list -> bool
+
+val da_from_positions : bool -> n list -> darray outcome
+
+val da_from_bools : bool -> bool list -> darray outcome
